@@ -10,7 +10,7 @@ from harness.creators import SHAPES, BLOCK
 import refconc
 
 PROPERTY = "C15"
-MODULES = ["torrent", "hasher", "utils", "mixins"]
+MODULES = ["torrent", "hasher", "utils", "mixins", "cli", "commands"]
 ASSUMPTIONS = [
     "A-hash model (injective sha1); pass verdicts need no assumption on contents",
     "piece length is a configuration ({16,32,64} KiB) because `size % P` must stay linear; sizes and listing order "
@@ -40,6 +40,12 @@ def jobs(tier):
     out.append(("order2.P32768", "job", dict(shape="order2", P=32768, K=2, order="reversed")))
     for shp in cr.scheme_shapes(["flat2", "nested3"], tier):
         out.append(("%s.P16384" % shp, "job", dict(shape=shp, P=16384, K=1 if shp.startswith("nested3") else 2, order="reversed")))
+    # how the request arrives: `content` keyword (what the command line passes), the command line itself, progress modes
+    for shape in ("single", "flat2"):
+        for route, prog in (("content", 0), ("cli", 1), ("content", 2), ("cli", 0), ("path", 1), ("path", 2), ("url-fallback", 0)):
+            if q and shape == "flat2" and (route, prog) in (("content", 2), ("path", 1)):
+                continue
+            out.append(("%s.P16384.via-%s.prog%d" % (shape, route, prog), "job", dict(shape=shape, P=16384, K=2, order="reversed", route=route, progress=prog)))
     out.append(("seq.flat2.P16384-then-P65536", "job_seq", dict(P1=16384, P2=65536)))
     out.append(("seq.flat2.P32768-then-P16384", "job_seq", dict(P1=32768, P2=16384)))
     if not q:
@@ -49,12 +55,30 @@ def jobs(tier):
     return out
 
 
-def job(E, shape, P, K, order, _mutants=None):
+def _request(w, route, P, progress, root="/data/name", out="/out/x.torrent"):
+    """The same aligned v1 request by different routes; returns the info dictionary."""
+    if route == "path":
+        return cr.create(w, "1", path=root, piece_length=P, progress=progress, align=True).meta["info"]
+    if route == "content":
+        return cr.create(w, "1", content=root, piece_length=P, progress=progress, align=True).meta["info"]
+    if route == "url-fallback":
+        # the documented fallback: the content path swallowed by a list-valued option arrives as its last element
+        return cr.create(w, "1", announce=["http://t/a", root], piece_length=P, progress=progress, align=True).meta["info"]
+    argv = ["create", "--align", "--prog", str(progress), "--meta-version", "1", "--piece-length", str(P), "-o", out, root]
+    return w.mod("cli").execute(argv).meta["info"]
+
+
+def job(E, shape, P, K, order, route="path", progress=0, _mutants=None):
     fs, sizes = cr.make_fs(E, shape, K, P, order=order)
+    fs.mkdirs("/out")
     E.assume(disj(*[s > 0 for s in sizes.values()]))
     w = World(fs, mutants=_mutants)
     try:
-        t = cr.create(w, "1", path="/data/name", piece_length=P, progress=0, align=True)
+        info = _request(w, route, P, progress)
+        t = __import__("types").SimpleNamespace(meta={"info": info})
+    except SystemExit as ex:
+        E.fail("C15.parser-accepts", str(ex))
+        return
     except Exception as ex:  # noqa: BLE001
         E.fail("C15.no-exception", "%s: %s" % (type(ex).__name__, ex))
         return
@@ -131,11 +155,23 @@ def replay(params, model, notes, workdir, seed):
     shape, P = params["shape"], params["P"]
     sizes = cr.concrete_sizes(shape, model)
     root, data = cr.materialize(workdir, shape, sizes, seed)
+    route, prog = params.get("route", "path"), params.get("progress", 0)
+    import io
+    import contextlib
     try:
-        t = cr.real_create("1", path=root, piece_length=P, align=True)
-    except Exception as ex:  # noqa: BLE001
+        if route == "cli":
+            mods = cr.real_torrentfile()
+            os.makedirs(os.path.join(workdir, "out"), exist_ok=True)
+            with contextlib.redirect_stdout(io.StringIO()), contextlib.redirect_stderr(io.StringIO()):
+                info = mods["torrentfile.cli"].execute(["create", "--align", "--prog", str(prog), "--meta-version", "1", "--piece-length", str(P),
+                                                        "-o", os.path.join(workdir, "out", "x.torrent"), root]).meta["info"]
+        else:
+            kw = {"path": dict(path=root), "content": dict(content=root), "url-fallback": dict(announce=["http://t/a", root])}[route]
+            with contextlib.redirect_stdout(io.StringIO()), contextlib.redirect_stderr(io.StringIO()):
+                info = cr.real_create("1", piece_length=P, align=True, progress=prog, **kw).meta["info"]
+    except BaseException as ex:  # noqa: BLE001
         return ["C15.no-exception: %s: %s" % (type(ex).__name__, ex)]
-    return ["C15." + b for b in conc_aligned(t.meta["info"], data, P, shape)]
+    return ["C15." + b for b in conc_aligned(info, data, P, shape)]
 
 
 def validate(tier, workdir, seed):
